@@ -207,6 +207,16 @@ namespace awkward {
   }
 
   const FormPtr
+  ByteMaskedForm::getitem_range() const {
+    return std::make_shared<ByteMaskedForm>(has_identities_,
+                                            parameters_,
+                                            form_key_,
+                                            mask_,
+                                            content_.get()->getitem_range(),
+                                            valid_when_);
+  }
+
+  const FormPtr
   ByteMaskedForm::getitem_field(const std::string& key) const {
     ByteMaskedForm step1(has_identities_,
                          util::Parameters(),
